@@ -83,6 +83,11 @@ func (r *runner) validate(label string) {
 			r.violate("search_slot_leak", "%s: %d of %d search worker slots are still taken although no search is in flight: they are never given back, %d such requests deadlock every later search", label, n, max(1, r.c.Knobs.SearchWorkers), max(1, r.c.Knobs.SearchWorkers))
 			return
 		}
+		// the same holds for the counters behind the request limits
+		if ns, nb := r.st.API.VerifInflight(); ns != 0 || nb != 0 {
+			r.violate("inflight_leak", "%s: the store counts %d searches and %d bulks in flight although none is: the count never goes down again, and at the request limit every request is refused", label, ns, nb)
+			return
+		}
 	}
 	if r.c.Oracles.Retention {
 		r.validateRetention(label)
